@@ -71,7 +71,7 @@ def pre_info(v):
     snaps = v["snapshots"]
     cur = current_snapshot(v)
     info = {"digest": view_digest(v), "ids": [s["id"] for s in snaps], "rows": current_rows(v), "files": set(cur["files"]) if cur else set(),
-            "pointer": v["metadata_file"], "by_id": {s["id"]: s for s in snaps}}
+            "pointer": v["metadata_file"], "by_id": {s["id"]: s for s in snaps}, "current_id": v["current_id"]}
     info["del_path"] = sorted(info["files"])[0] if info["files"] else "data/none.parquet"
     tss = sorted({s["ts"] for s in snaps})
     info["cutoff"] = tss[len(tss) // 2] if tss else 0
@@ -245,7 +245,15 @@ def run_one(task):
             else:
                 t = run.open()
                 st.enabled = True
-                do_op(t, op, pre, run)
+                try:
+                    do_op(t, op, pre, run)
+                except Exception as e:  # noqa - a FAULT-FREE, uncontended operation on a table whose history may hold crash leftovers
+                    st.enabled = False
+                    crashy = any(s_.get("op") in ("crash_before_flip", "failed_commit") for s_ in (steps or []))
+                    res.violation(f"fault-free-operation-raised/{op}/{type(e).__name__}" + ("/after-crash-leftovers" if crashy else ""),
+                                  f"op={op} on prefix {pname}: the fault-free run raised {type(e).__name__}: {str(e)[:140]}",
+                                  {"kind": "crash", "world": wk, "op": op, "prefix": pname, "prefix_steps": steps, "n": 1, "phase": "before", "step": "clean-run"})
+                    return res
                 st.enabled = False
         st.handler = None
         N = st.n
